@@ -54,9 +54,8 @@ pub struct Args {
 
 pub fn parse_args() -> Args {
     let mut it = std::env::args().skip(1);
-    let component = it.next().expect("usage: <bin> <component> --seed S --n N --out DIR [--replay FILE]");
     let mut a = Args {
-        component,
+        component: String::new(),
         seed: 1,
         n: 100,
         out: PathBuf::from("."),
